@@ -235,7 +235,7 @@ c11_written!(c11_all_written_f64, f64);
 c11_written!(c11_all_written_f32, f32);
 
 // ------------------------------------------------------------------------------------------
-// method switch and chain length for vectors longer than the all-bit-patterns harnesses reach: all entries 0.09
+// method switch and chain length for vectors longer than the all-bit-patterns harnesses reach: all entries 0.05
 // except one entry of arbitrary value at an arbitrary position.  Beta method iff that entry is <= 0.1 too;
 // sampler counts and sample_len follow the length.
 // ------------------------------------------------------------------------------------------
@@ -248,7 +248,7 @@ macro_rules! c11_new_long {
                 let a: $f = kani::any();
                 kani::assume(k < $l);
                 kani::assume(a >= 1e-3 && a <= 1e4);
-                let mut alpha: [$f; $l] = [0.09; $l];
+                let mut alpha: [$f; $l] = [0.05; $l];
                 alpha[k] = a;
                 let r = Dirichlet::<$f>::new(&alpha);
                 vassert!(r.is_ok(), "Dirichlet::new rejects a vector of positive, finite, normal entries");
@@ -283,7 +283,7 @@ macro_rules! c11_new_long {
 //@ tier: quick
 //@ cap: 900
 //@ funcs: Dirichlet::<f32>::new; DirichletFromBeta::new; DirichletFromGamma::new
-//@ bounds: length 17; sixteen entries 0.09 (tail sums cross 1), one entry of any value in [1e-3, 1e4] at any position
+//@ bounds: length 17; sixteen entries 0.05, one entry of any value in [1e-3, 1e4] at any position
 //@ assumes: libm::sqrtf by (class) contract
 c11_new_long!(c11_new_f32_l17, f32, 17);
 //@ id: c11_new_f64_l17
@@ -333,3 +333,47 @@ fn c11_simplex_free_f32_l4() {
     core::mem::forget(d);
 }
 
+
+// concrete long vectors whose tail sums exceed 1 (and 2): Beta method, and every Beta(alpha_i, tail_i) sampler uses
+// algorithm BC because min(alpha_i, tail_i) <= 0.1 <= 1, whatever the tail
+macro_rules! c11_beta_bc {
+    ($name:ident, $f:ty, $l:expr, $v:expr) => {
+        vproof_lite! {
+            #[kani::unwind(23)]
+            fn $name() {
+                let alpha: [$f; $l] = [$v; $l];
+                let d = match Dirichlet::<$f>::new(&alpha) { Ok(d) => d, Err(_) => { vassert!(false, "Dirichlet::new rejects a valid vector"); return } };
+                match &d.repr {
+                    DirichletRepr::FromBeta(b) => {
+                        vassert!(b.samplers.len() == $l - 1, "Dirichlet(FromBeta): wrong number of Beta samplers");
+                        let mut i = 0;
+                        while i < $l - 1 {
+                            vassert!(crate::beta::__verif::beta_is_bc(&b.samplers[i]), "Dirichlet(FromBeta): a Beta(alpha_i <= 0.1, tail) sampler uses algorithm BB (for min > 1)");
+                            i += 1;
+                        }
+                    }
+                    DirichletRepr::FromGamma(_) => vassert!(false, "Dirichlet: Gamma method chosen although all alpha <= 0.1"),
+                }
+                kani::cover!(true, "reached");
+                core::mem::forget(d);
+            }
+        }
+    };
+}
+//@ id: c11_beta_bc_f32_l17
+//@ prop: C11
+//@ tier: quick
+//@ cap: 600
+//@ funcs: Dirichlet::<f32>::new; DirichletFromBeta::new; Beta::<f32>::new (algorithm selection)
+//@ bounds: alpha = [0.09; 17] (tail sums up to 1.44)
+//@ assumes: libm::sqrtf by (class) contract
+c11_beta_bc!(c11_beta_bc_f32_l17, f32, 17, 0.09);
+//@ id: c11_beta_bc_f64_l17
+//@ besteffort: yes
+//@ prop: C11
+//@ tier: thorough
+//@ cap: 1500
+//@ funcs: Dirichlet::<f64>::new; DirichletFromBeta::new; Beta::<f64>::new (algorithm selection)
+//@ bounds: alpha = [0.1; 17] (tail sums up to 1.6)
+//@ assumes: libm::sqrt by (class) contract
+c11_beta_bc!(c11_beta_bc_f64_l17, f64, 17, 0.1);
